@@ -192,7 +192,7 @@ func (s *specGenState) next(rng *rand.Rand, i int) specCase {
 	if s.pending == 0 {
 		for {
 			cfg := s.cfg(rng)
-			switch rng.Intn(8) {
+			switch rng.Intn(6) {
 			case 0:
 				// the shapes the candidate finders recognise (prefixes, fixed-distance sets, counted
 				// repetitions around the analysers' limits, landmark chains), when they stay in the fragment
